@@ -100,10 +100,11 @@ def harness(cfg, B):
     # ---- exact reals, all of R^2
     B.ob('zero-when-signs-differ-or-one-vanishes', 'true', _implies(B, opposite, r == 0))
     B.ob('zero-or-common-sign', 'true', (r == 0) | ((r > 0) & (a > 0) & (b > 0)) | ((r < 0) & (a < 0) & (b < 0)))
-    B.ob('|r|<=2min', 'le', abs(r), 2 * mn)
-    B.ob('|r|<=max', 'le', abs(r), mx)
-    B.ob('r(a,b)=r(b,a)', 'eq', r, rba)
-    B.ob('r(-a,-b)=-r(a,b)', 'eq', rneg, -r)
+    rel = {'relative': True}
+    B.ob('|r|<=2min', 'le', abs(r), 2 * mn, meta=rel)
+    B.ob('|r|<=max', 'le', abs(r), mx, meta=rel)
+    B.ob('r(a,b)=r(b,a)', 'eq', r, rba, meta=rel)
+    B.ob('r(-a,-b)=-r(a,b)', 'eq', rneg, -r, meta=rel)
     lam = B.pos('lam', 0.1, 10.0)
     rl = lim(lam * a, lam * b)
     raa = lim(a, a)
@@ -119,11 +120,13 @@ def harness(cfg, B):
         if cfg['limiter'] == 'vanalbada':
             r0 = a * b * (a + b) / (a * a + b * b)
             r0l = (lam * a) * (lam * b) * (lam * a + lam * b) / ((lam * a) * (lam * a) + (lam * b) * (lam * b))
-            B.ob('deviation-from-unregularised-form', 'le', abs(r - r0) * (a * a + b * b), abs(r0) * e, assume=big, tol=1e-9)
+            B.ob('deviation-from-unregularised-form', 'le', abs(r - r0) * (a * a + b * b), abs(r0) * e, assume=big, tol=1e-9, meta={'relative': True},
+                 replayable=False)      # a 1e-20 relative deviation is below double precision: not confirmable by a float replay
         else:
             r0 = 2 * a * b / (a + b)
             r0l = 2 * (lam * a) * (lam * b) / (lam * a + lam * b)
-            B.ob('deviation-from-unregularised-form', 'le', abs(r - r0) * abs(a + b), abs(r0) * e, assume=big, tol=1e-9)
+            B.ob('deviation-from-unregularised-form', 'le', abs(r - r0) * abs(a + b), abs(r0) * e, assume=big, tol=1e-9, meta={'relative': True},
+                 replayable=False)      # a 1e-20 relative deviation is below double precision: not confirmable by a float replay
         B.ob('unregularised-form-homogeneous', 'eq', r0l, lam * r0, assume=big)
         B.ob('unregularised-form(a,a)=a', 'eq', (a * a * (a + a) / (a * a + a * a)) if cfg['limiter'] == 'vanalbada' else (2 * a * a / (a + a)), a,
              assume=[absa * absa >= B.const(Fraction(1, 10 ** 16))])
